@@ -192,7 +192,7 @@ PROPS = {
         "trusted_base": COMMON_TB + ["the real `mocset` binary is rebuilt from /repo and driven as a process; exit status, `list` stdout, file bytes and `extract` output are what is observed"],
         "assumptions": COMMON_ASSUME + ["the model is the abstract registry (ordered entries); the byte layout of the file is not modelled (byte sizes are)",
             "an unknown identifier in chgstatus is reported by a WARNING on stderr with exit status 0 (as the code does); `report failure` is read as that warning",
-            "command-line domain (identifier <= 2^48 - 1, status in {removed, deprecated, valid}) is checked by the driver before the model is consulted: such a command is refused and leaves the file unchanged"],
+            "command-line domain (identifier <= 2^48 - 1, status in {removed, deprecated, valid}) is part of the model (msAppendCmd / msChgStatusCmd, theorem cmd_domain): such a command is refused and leaves the file unchanged"],
         "rule": "random command histories (make, then 3..10 of append / chgstatus / purge / update-while-locked) over a population of 8 identifiers, valid and deprecated (negative) ids, MOCs of "
                 "shallow (<=13, 32-bit storage) and deep (64-bit) depths, empty MOCs, FITS inputs on 32 and 64 bits; one history out of 6 fills an n128=1 file completely (127 slots) and then "
                 "appends / changes status. After EVERY command: exit status + all `list` rows against the model; refused commands must leave the file bytes unchanged; no lock left behind; at "
